@@ -64,6 +64,34 @@ def analyse_unit(unit, extra):
         want_scalars = sorted([want_bound] + ["%s+%d" % (want_bound, i) for i in (1, 2, 3)])
         _inst(out, "R-C01-carry", sorted(acc_by_name.values()) == want_scalars, KI, fn,
               "scalar slots %s" % sorted(acc_by_name.values()), line, "the four sums live right after the q slots: %s" % want_scalars)
+        # ---- loops: every counted loop of the kernel runs i = 0; i < BOUND; i++ -----------------------------
+        qbounds = []
+        for n in cfront.walk(k.body):
+            if n.get("kind") != "ForStmt":
+                continue
+            parts = n.get("inner", [])
+            if len(parts) < 5:
+                continue
+            init, cond, inc = parts[0], parts[2], parts[3]
+            itxt, ctxt, stxt = norm(c_text(init)) if init else "", norm(c_text(cond)) if cond else "", norm(c_text(inc)) if inc else ""
+            if init and init.get("kind") == "DeclStmt":
+                vd = [x for x in kids(init) if x.get("kind") == "VarDecl"]
+                ini = [x for x in kids(vd[0])] if vd else []
+                itxt = "%s=%s" % (vd[0].get("name"), norm(c_text(ini[0])) if ini else "?") if vd else itxt
+            m = re.match(r"^(\w+)<(.+)$", ctxt)
+            var = m.group(1) if m else None
+            ok = bool(m) and itxt == "%s=0" % var and stxt in ("%s++" % var, "++%s" % var) and "=" not in m.group(2)
+            _inst(out, "R-C01-loops", ok, KI, fn, "for (%s; %s; %s)" % (itxt, ctxt, stxt), n.get("_line", 0),
+                  "counted loop from 0, strict upper bound, step +1" if ok else
+                  "a counted loop of the kernel must run index = 0; index < bound; index++ (a <= bound reads and accumulates one "
+                  "element past the q vector / cross-section table, a reversed step never terminates on the intended range)")
+            if var and "q_index" in var:
+                qbounds.append((m.group(2), n))
+        for b, n in qbounds:
+            okb = b in (k.p_nq, "2*%s" % k.p_nq)
+            _inst(out, "R-C01-loops", okb, KI, fn, "q loop bound %s" % b, n.get("_line", 0), "every q point, and only those, takes part")
+        if not qbounds:
+            _inst(out, "R-C01-loops", False, KI, fn, "q loop", line, "no loop over the q points found in the kernel")
         # ---- gate ----------------------------------------------------
         vif, cif = k.valid_if(), k.cutoff_if()
         if vif is None or cif is None:
@@ -87,6 +115,52 @@ def analyse_unit(unit, extra):
                           if gated and uses_w else "gated=%s weighted_by_%s=%s" % (gated, wvar, uses_w))
             if n_acc < 5:
                 _inst(out, "R-C01-gate", False, KI, fn, "accumulation statements", line, "only %d found" % n_acc)
+            # the validity test is a C expression: a comparison applied to the result of a comparison (`a >= b >= 0`) does
+            # not chain - it compares a 0/1 value - and silently turns the guard into a constant
+            REL = ("<", ">", "<=", ">=", "==", "!=")
+            vcond = if_parts(vif)[0]
+            for nrel in cfront.walk(vcond):
+                if nrel.get("kind") == "BinaryOperator" and nrel.get("opcode") in REL:
+                    for ch in kids(nrel):
+                        c0 = ch
+                        while c0.get("kind") in ("ImplicitCastExpr", "CStyleCastExpr"):      # (parentheses show intent: not stripped)
+                            c0 = kids(c0)[0]
+                        if c0.get("kind") == "BinaryOperator" and c0.get("opcode") in REL:
+                            _inst(out, "R-C01-gate", False, KI, fn, "VALID: %s" % c_text(nrel)[:80], vif.get("_line", 0),
+                                  "chained comparison in the model's validity expression: `x >= y >= z` is `(x >= y) >= z` in C, so "
+                                  "infeasible mesh points are no longer excluded")
+            # no accumulation sits under any further condition, except the effective-radius sum under `mode != 0`
+            radius_acc = {n for n, e in acc_by_name.items() if e.endswith("+3")}
+            for l, rhs, node, anc in k.accumulations():
+                if not (l in names or l.startswith(k.p_result + "[")):
+                    continue
+                extra = [a for a in anc if a.get("kind") == "IfStmt" and a is not vif and a is not cif and any(a is x for x in cfront.walk(cif))]
+                for a in extra:
+                    cnd, then, els = if_parts(a)
+                    ctxt = norm(c_text(cnd))
+                    in_then = any(node is x for x in cfront.walk(then))
+                    if ctxt.startswith("qsq>"):
+                        continue        # magnetic kernels skip q = 0 (judged by R-C06-loop)
+                    ok = l in radius_acc and ctxt == norm("%s != 0" % k.p_mode) and in_then
+                    _inst(out, "R-C01-gate", ok, KI, fn, "%s += ... under if (%s)" % (l, c_text(cnd)), a.get("_line", 0),
+                          "the effective-radius sum is taken exactly when a mode is selected" if ok else
+                          "an accumulation sits under a further condition: mesh points above the cutoff are left out of this sum")
+            # the q point is fetched from the q vector at the loop index
+            fetch = []
+            for n in cfront.walk(cif):
+                if n.get("kind") == "BinaryOperator" and n.get("opcode") == "=":
+                    lhs, rhs = kids(n)
+                    r0 = c_strip(rhs)
+                    if r0.get("kind") == "ArraySubscriptExpr" and norm(c_text(kids(r0)[0])) == k.p_q:
+                        fetch.append((norm(c_text(lhs)), norm(c_text(kids(r0)[1])), n))
+            if variant == "Iq":
+                okf = len(fetch) == 1 and "q_index" in fetch[0][1] and fetch[0][1] in ("q_index",)
+            else:
+                idx2 = sorted(f[1] for f in fetch)
+                okf = len(fetch) == 2 and idx2 == ["2*q_index", "2*q_index+1"] and fetch[0][0] != fetch[1][0] \
+                    and [f[0] for f in sorted(fetch, key=lambda f: f[1])] == ["qx", "qy"]
+            _inst(out, "R-C01-gate", okf, KI, fn, "q fetch: %s" % ["%s = q[%s]" % (a, b) for a, b, _ in fetch], fetch[0][2].get("_line", 0) if fetch else line,
+                  "each q point is read from its own slot of the q vector (1-D: q[i]; 2-D: qx = q[2i], qy = q[2i+1])")
         # ---- restart -------------------------------------------------
         loops = k.loops()
         max_pd = meta.get("max_pd")
@@ -106,6 +180,28 @@ def analyse_unit(unit, extra):
                   "dispersity values start after the %s scalar slots (NUM_VALUES)" % nv)
             _inst(out, "R-C01-restart", dtext("pd_weight") == norm("pd_value+%s->num_weights" % D), KI, fn,
                   "pd_weight = %s" % dtext("pd_weight"), line, "weights follow the values block")
+        # the local parameter table starts as a copy of the NUM_PARS central values (values[2 ..])
+        npars = meta.get("npars")
+        copied = None
+        for n in kids(k.body):
+            if n.get("kind") == "ForStmt":
+                parts = n.get("inner", [])
+                cond = norm(c_text(parts[2])) if len(parts) > 2 and parts[2] else ""
+                stores = [x for x in cfront.walk(parts[-1]) if x.get("kind") == "BinaryOperator" and x.get("opcode") == "="]
+                for x in stores:
+                    lhs, rhs = norm(c_text(kids(x)[0])), norm(c_text(kids(x)[1]))
+                    m1 = re.match(r"^(\w+)\.vector\[(\w+)\]$", lhs)
+                    if m1:
+                        var = m1.group(2)
+                        copied = (cond, rhs, var, n)
+        if copied is None:
+            _inst(out, "R-C01-restart", False, KI, fn, "local parameter table filled from the value vector", line,
+                  "no loop copying values[2+i] into the local table: the kernel evaluates the model on uninitialised parameters")
+        else:
+            cond, rhs, var, n = copied
+            okc = rhs in ("%s[2+%s]" % (k.p_values, var), "%s[%s+2]" % (k.p_values, var)) and cond == "%s<%s" % (var, npars)
+            _inst(out, "R-C01-restart", okc, KI, fn, "for (%s) local[%s] = %s" % (cond, var, rhs), n.get("_line", 0),
+                  "all %s parameters start from their central values, after the scale and background slots" % npars)
         _inst(out, "R-C01-restart", dtext("step") == k.p_start, KI, fn, "int step = %s" % dtext("step"), line,
               "mesh position starts at pd_start")
         incs = [n for n in cfront.walk(k.body) if n.get("kind") == "UnaryOperator" and n.get("opcode") == "++"
@@ -484,6 +580,7 @@ RULES = [
     ("R-C01-carry", 61 * 3 * 4, "accumulator carry/reset pairing in every kernel", make_c_rule("R-C01-carry")),
     ("R-C01-gate", 61 * 3 * 4, "VALID and strict cutoff gate every accumulation", make_c_rule("R-C01-gate")),
     ("R-C01-restart", 61 * 3 * 3, "loop restart protocol per level", make_c_rule("R-C01-restart")),
+    ("R-C01-loops", 300, "counted loops of every kernel run 0 <= i < bound, step 1", make_c_rule("R-C01-loops")),
     ("R-C01-struct", 60, "ProblemDetails layout = CallDetails.buffer views", rule_struct),
     ("R-C01-values", 9, "value vector layout and NUM_VALUES", rule_values),
     ("R-C01-stride", 9, "stride/selection construction", rule_stride),
